@@ -114,34 +114,58 @@ Definition einv (s : est) : Prop :=
 (* tq: a client called the resolver at time t; tw: ares_event_thread_wake at t;           *)
 (* twait: the thread starts waiting at t with timeout ms (None = unlimited);              *)
 (* twoke: the wait returned at t.                                                         *)
+(* thint: the timeout hint (sec, usec) ares_timeout() gave the event thread for the next wait. *)
 Inductive tev :=
-| TQuery (t : Z) | TWakeSig (t : Z) | TWait (t : Z) (ms : option Z) | TWoke (t : Z).
+| TQuery (t : Z) | TWakeSig (t : Z) | TWait (t : Z) (ms : option Z) | TWoke (t : Z)
+| THint (sec usec : Z).
+
+(* The event thread's conversion of the hint to the backends' millisecond timeout
+   (ares_event_thread(): timeout_ms = min(tv_sec*1000 + tv_usec/1000 + 1, INT_MAX)).  The backends take 0 as "no timeout": a pending deadline must never be
+   converted to 0. *)
+Definition INT_MAX : Z := 2147483647.
+Definition ms_of_hint (sec usec : Z) : Z :=
+  if sec >? INT_MAX / 1000 then INT_MAX
+  else let ms := sec * 1000 + usec / 1000 + 1 in if ms >? INT_MAX then INT_MAX else ms.
+Definition wait_ms_ok (ms : option Z) : bool :=
+  match ms with Some m => (0 <? m) && (m <=? INT_MAX) | None => true end.
 
 Record acc := mkA { a_blocked : option (option Z);   (* Some u = blocked until u *)
                     a_need : option Z;               (* a query at this time still needs the thread to wake *)
-                    a_ok : bool }.
+                    a_ok : bool;
+                    a_hint : option (Z * Z);         (* hint logged for the next wait *)
+                    a_conv : bool }.                 (* every wait's timeout was the conversion of its hint, and usable *)
 
 (* [base]: first-attempt timeout of the configuration; [tol]: scheduling tolerance *)
 Definition acc_step (base tol : Z) (a : acc) (e : tev) : acc :=
   match e with
   | TQuery t =>
       match a_blocked a with
-      | Some None => mkA (a_blocked a) (Some t) (a_ok a)
-      | Some (Some u) => if t + base + tol <? u then mkA (a_blocked a) (Some t) (a_ok a) else a
+      | Some None => mkA (a_blocked a) (Some t) (a_ok a) (a_hint a) (a_conv a)
+      | Some (Some u) => if t + base + tol <? u then mkA (a_blocked a) (Some t) (a_ok a) (a_hint a) (a_conv a) else a
       | None => a
       end
-  | TWakeSig _ => mkA (a_blocked a) None (a_ok a)
+  | TWakeSig _ => mkA (a_blocked a) None (a_ok a) (a_hint a) (a_conv a)
+  | THint sec usec => mkA (a_blocked a) (a_need a) (a_ok a) (Some (sec, usec)) (a_conv a)
   | TWait t ms =>
-      mkA (Some (match ms with None => None | Some m => Some (t + m) end)) None (a_ok a)
+      mkA (Some (match ms with None => None | Some m => Some (t + m) end)) None (a_ok a) None
+          (a_conv a && wait_ms_ok ms &&
+           match ms, a_hint a with
+           | Some m, Some (sec, usec) => m =? ms_of_hint sec usec
+           | _, _ => true                 (* no hint logged (older hook): nothing to compare *)
+           end)
   | TWoke t =>
       match a_need a with
-      | Some tq => mkA None None (a_ok a && (t <=? tq + base + tol))
-      | None => mkA None None (a_ok a)
+      | Some tq => mkA None None (a_ok a && (t <=? tq + base + tol)) (a_hint a) (a_conv a)
+      | None => mkA None None (a_ok a) (a_hint a) (a_conv a)
       end
   end.
 
 Definition acc_run (base tol : Z) (tr : list tev) : acc :=
-  fold_left (acc_step base tol) tr (mkA None None true).
+  fold_left (acc_step base tol) tr (mkA None None true None true).
+
+(* every wait of the trace used exactly the model's conversion of the hint it was computed
+   from, and never the backends' "no timeout" value 0 while a deadline was pending *)
+Definition trace_conversion_ok (tr : list tev) : bool := a_conv (acc_run 0 0 tr).
 
 (* a trace is accepted when no query was left needing a wake-up: neither at a late wake-up nor
    at the end of the trace *)
